@@ -158,7 +158,7 @@ impl Property for C03 {
                     plan.items.push(Item::Hint { size: h });
                 }
                 if rng.chance(1, 4) {
-                    let kind = 1 + rng.below(2) as u8;
+                    let kind = 1 + rng.below(3) as u8;
                     plan.items.push(Item::FType { kind });
                     if kind == 1 && rng.chance(1, 2) {
                         plan.items.push(if rng.chance(1, 2) { Item::NbFifo { mode: 1, n: 0 } } else { Item::NbFifo { mode: 2, n: rng.below(4) } });
